@@ -505,6 +505,14 @@ pub fn run(c: &mut Ctx) {
             if strict && guard(|| txt(x).parse::<NaiveTime>().ok() == Some(t)) != Ok(true) {
                 c.fail(&format!("NaiveTime {} does not parse back", form), &format!("{} text {:?}", st(&t), txt(x)));
             }
+            if !strict && t.num_seconds_from_midnight() % 60 != 59 {
+                // theorem `NaiveTime_leap_off_59_reads_as_next_second` (outside the property's side condition)
+                let want = mk_time(t.num_seconds_from_midnight() + 1, t.nanosecond() - NS);
+                c.count("time:leap-off-59-reads-as-next-second");
+                if guard(|| txt(x).parse::<NaiveTime>().ok()) != Ok(Some(want)) {
+                    c.fail("NaiveTime leap representation off second 59 does not read as the following second", &format!("{} text {:?} -> {}", st(&t), txt(x), rd_time(txt(x))));
+                }
+            }
             if txt(x) != ref_time(t.num_seconds_from_midnight(), t.nanosecond()) {
                 c.fail("NaiveTime text is not HH:MM:SS[.fff[fff[fff]]] with minimal fraction and second+1 for a leap second", &format!("{:?} for {}", txt(x), st(&t)));
             }
